@@ -391,3 +391,187 @@ func init() {
 			}
 		}})
 }
+
+func init() {
+	register(&Rule{ID: "W.treelist", Min: 12, Text: "order-statistic bookkeeping of the array index (pkg/treelist, a left-leaning red-black tree with two aggregates — weight: live elements, count: all slots): (1) every function that re-links a child of an existing node ends, on every path after the re-link, in updateNode or fixUp (which calls it) or returns the result of one; both rotations recompute the demoted node before the promoted one; (2) updateNode recomputes both aggregates from both children (weight = left + own size + right, count = left + 1 + right); (3) UpdateWeight walks parent links up to the root; (4) the two index spaces never mix: a function that descends by count (insertByCount, deleteByCount, structuralIndexOf) reads no weight, and Find (the live index lookup) reads no count",
+		Run: func(x *Ctx) {
+			const pkg = "pkg/treelist"
+			n := 0
+			calleeName := func(c ssa.CallInstruction) string {
+				if o := prog.CallObj(c); o != nil {
+					return o.Name()
+				}
+				if f := c.Common().StaticCallee(); f != nil {
+					if o := f.Origin(); o != nil {
+						return o.Name()
+					}
+					return f.Name()
+				}
+				return ""
+			}
+			recompute := map[string]bool{"updateNode": true, "fixUp": true, "rotateLeft": true, "rotateRight": true}
+			for _, fn := range x.P.FuncsIn(pkg) {
+				if o := fn.Origin(); o != nil && o != fn {
+					continue
+				}
+				var refs []ssa.CallInstruction
+				for _, c := range prog.CallsIn(fn) {
+					if recompute[calleeName(c)] {
+						refs = append(refs, c)
+					}
+				}
+				i := 0
+				for _, b := range fn.Blocks {
+					for _, ins := range b.Instrs {
+						st, ok := ins.(*ssa.Store)
+						if !ok {
+							continue
+						}
+						f := prog.FieldVar(st.Addr)
+						if f == nil || !(f.Name() == "left" || f.Name() == "right") {
+							continue
+						}
+						if prog.IsNilConst(st.Val) {
+							// detaching a node that leaves the tree (its own links are cleared)
+							if pm, isP := prog.Strip(st.Addr.(*ssa.FieldAddr).X).(*ssa.Parameter); isP && fn.Name() == "InsertAfter" && pm == fn.Params[2] {
+								continue
+							}
+						}
+						i++
+						n++
+						ok2 := false
+						for _, r := range refs {
+							if x.P.PostDominates(r, st) {
+								ok2 = true
+							}
+						}
+						// InsertAfter resets the links of the node being inserted before insertion weighs it
+						if !ok2 && fn.Name() == "InsertAfter" {
+							for _, c := range prog.CallsIn(fn) {
+								if calleeName(c) == "insertByCount" && x.P.PostDominates(c, st) {
+									ok2 = true
+								}
+							}
+						}
+						x.check(ok2, fmt.Sprintf("func=%s relink#%d aggregates-recomputed", prog.FnName(fn), i), x.pos(st), "weight and count are recomputed after the re-link on every path", "a child pointer is re-linked and some path to the return does not recompute the node's aggregates: Len/Get/index lookups through this node are off")
+					}
+				}
+			}
+			// rotations: demoted first
+			for _, name := range []string{"rotateLeft", "rotateRight"} {
+				fn := x.fn(pkg + "." + name)
+				if fn == nil {
+					x.C.Unresolved(x.id(), pkg+"."+name)
+					continue
+				}
+				var ups []ssa.CallInstruction
+				for _, c := range prog.CallsIn(fn) {
+					if calleeName(c) == "updateNode" {
+						ups = append(ups, c)
+					}
+				}
+				n++
+				ok := false
+				if len(ups) == 2 {
+					first, second := ups[0], ups[1]
+					if prog.Dominates(second, first) {
+						first, second = second, first
+					}
+					ok = prog.Strip(first.Common().Args[0]) == ssa.Value(fn.Params[0]) && prog.Strip(second.Common().Args[0]) != ssa.Value(fn.Params[0])
+				}
+				x.check(ok, "func="+prog.FnName(fn)+" recompute-demoted-then-promoted", x.fpos(fn), "the demoted node is recomputed before the promoted one", "after the rotation the aggregates are not recomputed for the demoted node first and the promoted one second")
+			}
+			// updateNode kernel
+			if fn := x.fn(pkg + ".updateNode"); fn != nil {
+				for _, agg := range []struct {
+					field string
+					parts []string
+				}{{"weight", []string{"leftWeight", "Size", "rightWeight"}}, {"count", []string{"leftCount", "rightCount"}}} {
+					n++
+					ok := false
+					for _, b := range fn.Blocks {
+						for _, ins := range b.Instrs {
+							st, isSt := ins.(*ssa.Store)
+							if !isSt {
+								continue
+							}
+							f := prog.FieldVar(st.Addr)
+							if f == nil || f.Name() != agg.field {
+								continue
+							}
+							all := true
+							for _, p := range agg.parts {
+								if !prog.DependsOn(st.Val, func(w ssa.Value) bool {
+									c, isC := prog.Strip(w).(*ssa.Call)
+									return isC && calleeName(c) == p
+								}) {
+									all = false
+								}
+							}
+							if agg.field == "count" {
+								// + 1 for the node itself
+								one := prog.DependsOn(st.Val, func(w ssa.Value) bool { k, isK := prog.IntConst(w); return isK && k == 1 })
+								all = all && one
+							}
+							ok = all
+						}
+					}
+					x.check(ok, "func="+prog.FnName(fn)+" "+agg.field+"=left+own+right", x.fpos(fn), "the aggregate is recomputed from both children and the node itself", "updateNode no longer recomputes "+agg.field+" from both children and the node itself")
+				}
+			}
+			// UpdateWeight walks to the root
+			if fn := x.fn(pkg + ".(*Tree).UpdateWeight"); fn != nil {
+				n++
+				walks := false
+				for _, b := range fn.Blocks {
+					for _, ins := range b.Instrs {
+						if ph, ok := ins.(*ssa.Phi); ok {
+							for _, e := range ph.Edges {
+								if f := prog.LoadedField(e); f != nil && f.Name() == "parent" {
+									if prog.Reaches(prog.FieldBase(e), func(w ssa.Value) bool { return w == ssa.Value(ph) }) {
+										walks = true
+									}
+								}
+							}
+						}
+					}
+				}
+				x.check(walks, "func="+prog.FnName(fn)+" walks-parents-to-root", x.fpos(fn), "the loop follows parent links", "UpdateWeight no longer propagates along the parent links up to the root")
+			}
+			// index spaces
+			weightSide := map[string]bool{"leftWeight": true, "rightWeight": true, "Size": true}
+			countSide := map[string]bool{"leftCount": true, "rightCount": true}
+			reads := func(fn *ssa.Function, names map[string]bool, field string) string {
+				for _, c := range prog.CallsIn(fn) {
+					if names[calleeName(c)] {
+						return calleeName(c) + "()"
+					}
+				}
+				for _, b := range fn.Blocks {
+					for _, ins := range b.Instrs {
+						if v, ok := ins.(ssa.Value); ok {
+							if f := prog.LoadedField(v); f != nil && f.Name() == field {
+								return "." + field
+							}
+						}
+					}
+				}
+				return ""
+			}
+			for _, name := range []string{".(*Tree).insertByCount", ".(*Tree).deleteByCount", ".(*Tree).structuralIndexOf"} {
+				if fn := x.fn(pkg + name); fn != nil {
+					n++
+					bad := reads(fn, weightSide, "weight")
+					x.check(bad == "", "func="+prog.FnName(fn)+" structural-index-reads-no-weight", x.fpos(fn), "descends by count only", "a structural (count-based) descent reads the live weight "+bad+": slots holding removed elements are skipped, so the node is inserted/deleted at the wrong physical position")
+				}
+			}
+			if fn := x.fn(pkg + ".(*Tree).Find"); fn != nil {
+				n++
+				bad := reads(fn, countSide, "count")
+				x.check(bad == "", "func="+prog.FnName(fn)+" live-index-reads-no-count", x.fpos(fn), "descends by live weight only", "the live index lookup reads the structural count "+bad+": removed elements are counted, Get(i) returns the wrong element")
+			}
+			if n < 12 {
+				x.C.Vacuous(x.id()+" sites", n, 12)
+			}
+		}})
+}
